@@ -194,7 +194,8 @@ def main(argv=None):
             print(res.get("_stderr", ""))
             return 2
         for x in viols:
-            print(f"VIOLATION property={prop} replay={args.replay}  # {x.get('what')}")
+            print(f"[{prop}] violation key={x.get('key')}: {x.get('what')}")
+            print(f"VIOLATION property={prop} replay={args.replay}")
         if not viols:
             print(f"replay: property={prop} no violation reproduced")
         return 1 if viols else 0
@@ -272,7 +273,8 @@ def main(argv=None):
             if len(seen) > 10:
                 break
             path = write_replay(prop, v)
-            print(f"VIOLATION property={prop} replay={path}  # key={v.get('key')} {v.get('what')}")
+            print(f"[{prop}] violation key={v.get('key')}: {v.get('what')}")
+            print(f"VIOLATION property={prop} replay={path}")
         return 1
     if inconclusive:
         for p in m["problems"][:3]:
